@@ -3,7 +3,7 @@
 Require Extraction.
 Require Import ExtrOcamlBasic.
 From Coq Require Import ZArith QArith List Bool.
-From Pandora Require Import Lib.Value Model.Dataset Model.Multiscale Gen.MsConst.
+From Pandora Require Import Lib.Value Model.Dataset Model.Multiscale Gen.MsConst Spec.Multiscale.
 Import ListNotations.
 Open Scope Z_scope.
 
@@ -42,7 +42,9 @@ Definition enc_grids (g : grids) : value :=
    fid 2: (n sf k) -> size of level k
    fid 3: (invalid_bits marge sf dmin dmax H W n with_right levels) -> grids of every execution
    fid 4: (sf mask) -> decimated mask
-   fid 5: (sf n) -> zoom index map of an axis of length n *)
+   fid 5: (sf n) -> zoom index map of an axis of length n
+   fid 6: (ws marge sf D V ulo uhi h w Gmin Gmax) -> the pixels of the h x w finer level whose observed
+          interval is not prescribed by Spec.Multiscale.finer_spec (the extracted spec checker) *)
 Definition dispatch (fid : Z) (v : value) : value :=
   match fid with
   | 1 => let '(n, sf) := read_multiscale_params ms_default_num_scales ms_default_scale_factor (map dec_step (as_l v)) in VL [VZ n; VZ sf]
@@ -54,6 +56,14 @@ Definition dispatch (fid : Z) (v : value) : value :=
   | 4 => enc_arr VZ (decimate (as_z (vnth 0 v)) (dec_arr as_z 0 (vnth 1 v)))
   | 5 => let sf := as_z (vnth 0 v) in let n := as_z (vnth 1 v) in
          of_zs (map (zoom_idx sf n) (zrange 0 (sf * n)))
+  | 6 => let Dm := dec_arr as_oq None (vnth 3 v) in
+         let Vm := dec_arr as_z 0 (vnth 4 v) in
+         let gmin := dec_arr as_oq None (vnth 9 v) in
+         let gmax := dec_arr as_oq None (vnth 10 v) in
+         VL (map (fun p => VL [VZ (fst p); VZ (snd p)])
+                 (finer_spec_bad (as_z (vnth 0 v)) (as_z (vnth 1 v)) (as_z (vnth 2 v)) (nr Dm) (nc Dm) (px Dm) (px Vm)
+                                 (as_q (vnth 5 v)) (as_q (vnth 6 v)) (as_z (vnth 7 v)) (as_z (vnth 8 v))
+                                 (fun r c => (px gmin r c, px gmax r c))))
   | _ => VL [VZ (-1)]
   end.
 
